@@ -7,22 +7,44 @@ import Qhttp.Lemmas.C17Auth
 namespace Qhttp.C17
 open Qhttp LocalAuth
 
-/-- walk the observation list against the operations: after every operation between `create` and
-    `destroy` the file exists with mode 0600 and holds the data keys plus a `token` member equal to
-    the current token; a request is admitted iff the configured header carries exactly the token;
-    after `destroy` the file is gone -/
-def walk : List Op → (alive : Bool) → (hdrName : Bytes) → (keys : List Bytes) → List Obs → Bool
-  | [], _, _, _, obs => obs.isEmpty
-  | op :: ops, alive, hdrName, keys, obs =>
+/-- walk the observation list against the operations.  The accumulators are what the API history
+    alone determines: is an instance alive, its header name, the keys of its in-memory `data`,
+    `blocked` (a directory occupies the advertised name, so `LocalFile::open()` fails) and `present`
+    (a regular file is at the name: put there by `pre`, or by an `updateFile()` that could open it,
+    and not removed by a destructor since).  After every operation:
+    * while blocked the snapshot says "no file" (a directory is not the advertised file; nothing
+      is demanded about existence: the guarantee presupposes that the file can be created);
+    * if an instance is alive and `present` (its last `updateFile()` could open the file and
+      nothing removed it since) the file has mode 0600 and holds the data keys plus a `token`
+      member equal to the current token;
+    * if no file can be there (`present = false`: in particular after `destroy` of a live instance,
+      ALSO when the open at construction had failed and a later update created the file) the
+      snapshot says "no file";
+    * a request is admitted iff the configured header carries exactly the token, blocked or not -/
+def walk : List Op → (alive : Bool) → (hdrName : Bytes) → (keys : List Bytes) →
+    (blocked : Bool) → (present : Bool) → List Obs → Bool
+  | [], _, _, _, _, _, obs => obs.isEmpty
+  | op :: ops, alive, hdrName, keys, blocked, present, obs =>
     let alive' := match op with | .create => true | .destroy => false | _ => alive
     let hdr' := match op with
       | .setHeaderName n => if alive then n else hdrName
       | .create => if alive then hdrName else lit ['X','-','A','u','t','h','-','T','o','k','e','n']
       | _ => hdrName
+    -- the keys of `data` in memory (written out by every `updateFile()` that can open the file)
     let keys' := match op with
       | .setData ks => if alive then sortKeys (TOKEN :: ks) else keys
       | .create => if alive then keys else [TOKEN]
       | _ => keys
+    let blocked' := match op with
+      | .block => if blocked || present then blocked else true
+      | .unblock => false
+      | _ => blocked
+    let present' := match op with
+      | .pre _ => if alive || blocked then present else true
+      | .create => if alive || blocked then present else true      -- `updateFile()` of the constructor
+      | .setData _ => if !alive || blocked then present else true   -- `updateFile()`
+      | .destroy => if alive then false else present                -- `file.remove()`, unconditionally
+      | _ => present
     -- a request first yields its verdict
     let (okReq, obs) :=
       match op, obs with
@@ -35,44 +57,77 @@ def walk : List Op → (alive : Bool) → (hdrName : Bytes) → (keys : List Byt
     match obs with
     | .misc 10 d :: rest =>
       okReq &&
-      (if alive' then
+      (if blocked' || !present' then d == []
+       else if alive' then
          (match d with
           | 1 :: 6 :: 0 :: 0 :: 1 :: ks => ks == joinWith [44] keys'
           | _ => false)
        else
-         -- before the first instance and after destruction nothing is claimed about a foreign
-         -- file except that destruction removes the advertised one
-         (match op with | .destroy => d == [] || !alive | _ => true)) &&
-      walk ops alive' hdr' keys' rest
+         -- a foreign file before an instance exists: nothing is claimed about it
+         true) &&
+      walk ops alive' hdr' keys' blocked' present' rest
     | _ => false
 
-def holds (ops : List Op) (obs : List Obs) : Bool := walk ops false [] [] obs
+def holds (ops : List Op) (obs : List Obs) : Bool := walk ops false [] [] false false obs
 
 
 /-! ## Theorems (proof agent C17)
 
-  Everything below is about the FROZEN model `LocalAuth` and the FROZEN predicate `holds`.
+  Everything below is about the model `LocalAuth` and the predicate `holds` above.
   Helper lemmas: `Qhttp/Lemmas/C17Keys.lean` (`sortKeys`), `Qhttp/Lemmas/C17Auth.lean`
   (projections of `step`, the invariant `LInv`, the history specification `Ghost`/`ghost`).
   Nothing is assumed about the operation sequence: every theorem quantifies over ALL `List Op`
-  (any interleaving of umask / pre / create / setData / setHeaderName / req / destroy, any umask
-  value, any mode of a pre-existing file).  -/
+  (any interleaving of umask / pre / create / setData / setHeaderName / req / destroy / block /
+  unblock, any umask value, any mode of a pre-existing file).  -/
 open Qhttp.C17L
 
 /-! ### `C17.walk` is simulated by `step` -/
 
+/-- the accumulators of `C17.walk` after one operation -/
+def nAlive (op : Op) (alive : Bool) : Bool :=
+  match op with | .create => true | .destroy => false | _ => alive
+def nHdr (op : Op) (alive : Bool) (hdrName : Bytes) : Bytes :=
+  match op with
+  | .setHeaderName n => if alive then n else hdrName
+  | .create => if alive then hdrName else lit ['X','-','A','u','t','h','-','T','o','k','e','n']
+  | _ => hdrName
+def nKeys (op : Op) (alive : Bool) (keys : List Bytes) : List Bytes :=
+  match op with
+  | .setData ks => if alive then sortKeys (TOKEN :: ks) else keys
+  | .create => if alive then keys else [TOKEN]
+  | _ => keys
+def nBlocked (op : Op) (blocked present : Bool) : Bool :=
+  match op with
+  | .block => if blocked || present then blocked else true
+  | .unblock => false
+  | _ => blocked
+def nPresent (op : Op) (alive blocked present : Bool) : Bool :=
+  match op with
+  | .pre _ => if alive || blocked then present else true
+  | .create => if alive || blocked then present else true
+  | .setData _ => if !alive || blocked then present else true
+  | .destroy => if alive then false else present
+  | _ => present
+
+/-- what `C17.walk` demands of the snapshot logged after an operation -/
+def snapOk (alive' : Bool) (keys' : List Bytes) (blocked' present' : Bool) (d : Bytes) : Bool :=
+  if blocked' || !present' then d == []
+  else if alive' then
+    (match d with
+     | 1 :: 6 :: 0 :: 0 :: 1 :: ks => ks == joinWith [44] keys'
+     | _ => false)
+  else
+    true
+
 /-- the body of `C17.walk` on a non-empty operation list (Lean cannot generate equation lemmas
     for `walk`, so it is unfolded through this copy, equal by `rfl`) -/
-def walkBody (op : Op) (ops : List Op) (alive : Bool) (hdrName : Bytes) (keys : List Bytes) (obs : List Obs) : Bool :=
-    let alive' := match op with | .create => true | .destroy => false | _ => alive
-    let hdr' := match op with
-      | .setHeaderName n => if alive then n else hdrName
-      | .create => if alive then hdrName else lit ['X','-','A','u','t','h','-','T','o','k','e','n']
-      | _ => hdrName
-    let keys' := match op with
-      | .setData ks => if alive then sortKeys (TOKEN :: ks) else keys
-      | .create => if alive then keys else [TOKEN]
-      | _ => keys
+def walkBody (op : Op) (ops : List Op) (alive : Bool) (hdrName : Bytes) (keys : List Bytes)
+    (blocked present : Bool) (obs : List Obs) : Bool :=
+    let alive' := nAlive op alive
+    let hdr' := nHdr op alive hdrName
+    let keys' := nKeys op alive keys
+    let blocked' := nBlocked op blocked present
+    let present' := nPresent op alive blocked present
     let (okReq, obs) :=
       match op, obs with
       | .req hdr, .misc 11 [v] :: rest =>
@@ -83,133 +138,113 @@ def walkBody (op : Op) (ops : List Op) (alive : Bool) (hdrName : Bytes) (keys : 
       | _, o => (true, o)
     match obs with
     | .misc 10 d :: rest =>
-      okReq &&
-      (if alive' then
-         (match d with
-          | 1 :: 6 :: 0 :: 0 :: 1 :: ks => ks == joinWith [44] keys'
-          | _ => false)
-       else
-         (match op with | .destroy => d == [] || !alive | _ => true)) &&
-      C17.walk ops alive' hdr' keys' rest
+      okReq && snapOk alive' keys' blocked' present' d &&
+      C17.walk ops alive' hdr' keys' blocked' present' rest
     | _ => false
 
-theorem walk_cons (op : Op) (ops : List Op) (a : Bool) (h : Bytes) (k : List Bytes) (obs : List Obs) :
-    C17.walk (op :: ops) a h k obs = walkBody op ops a h k obs := rfl
+theorem walk_cons (op : Op) (ops : List Op) (a : Bool) (h : Bytes) (k : List Bytes) (b p : Bool) (obs : List Obs) :
+    C17.walk (op :: ops) a h k b p obs = walkBody op ops a h k b p obs := rfl
 
-theorem walk_nil (a : Bool) (h : Bytes) (k : List Bytes) (obs : List Obs) :
-    C17.walk [] a h k obs = obs.isEmpty := rfl
+theorem walk_nil (a : Bool) (h : Bytes) (k : List Bytes) (b p : Bool) (obs : List Obs) :
+    C17.walk [] a h k b p obs = obs.isEmpty := rfl
 
-/-- relation between the model state and the three accumulators of `C17.walk` -/
-def Rel (s : St) (a : Bool) (h : Bytes) (k : List Bytes) : Prop :=
-  a = s.alive ∧ (s.alive = true → h = s.hdrName ∧ s.file = some (goodFile k))
+/-- relation between the model state and the accumulators of `C17.walk` -/
+def Rel (s : St) (a : Bool) (h : Bytes) (k : List Bytes) (b p : Bool) : Prop :=
+  a = s.alive ∧ b = s.blocked ∧ p = s.file.isSome ∧ (s.blocked = true → s.file = none) ∧
+  (s.alive = true → h = s.hdrName ∧ (s.file.isSome = true → s.file = some (goodFile k)))
 
-theorem walk_step (s : St) (op : Op) (a : Bool) (h : Bytes) (k : List Bytes) (hR : Rel s a h k) :
-    ∃ a' h' k', Rel (step s op) a' h' k' ∧
-      ∀ ops rest, C17.walk (op :: ops) a h k (verdictOut s op ++ [snap (step s op)] ++ rest)
-        = C17.walk ops a' h' k' rest := by
-  obtain ⟨ha, hR⟩ := hR
-  subst ha
-  cases hal : s.alive with
+/-- one step keeps the relation -/
+theorem Rel_step (s : St) (op : Op) (a : Bool) (h : Bytes) (k : List Bytes) (b p : Bool)
+    (hR : Rel s a h k b p) :
+    Rel (step s op) (nAlive op a) (nHdr op a h) (nKeys op a k) (nBlocked op b p) (nPresent op a b p) := by
+  obtain ⟨ha, hb, hp, hx, hal⟩ := hR
+  subst ha hb hp
+  refine ⟨?_, ?_, ?_, ?_, ?_⟩
+  · rw [step_alive]; cases op <;> rfl
+  · rw [step_blocked]; cases op <;> rfl
+  · rw [step_file]
+    cases op <;> cases hsa : s.alive <;> cases hsb : s.blocked <;> cases hsf : s.file <;>
+      simp_all [nPresent]
+  · rw [step_blocked, step_file]
+    cases op <;> cases hsa : s.alive <;> cases hsb : s.blocked <;> cases hsf : s.file <;>
+      simp_all
+  · rw [step_alive, step_hdrName, step_file]
+    cases op <;> cases hsa : s.alive <;> cases hsb : s.blocked <;> cases hsf : s.file <;>
+      simp_all [nHdr, nKeys, DEFHDR]
+
+/-- the snapshot of a state related to the accumulators is what `walk` demands -/
+theorem Rel_snap (s : St) (a : Bool) (h : Bytes) (k : List Bytes) (b p : Bool) (hR : Rel s a h k b p) :
+    ∃ d, snap s = Obs.misc 10 d ∧ snapOk a k b p d = true := by
+  obtain ⟨ha, hb, hp, hx, hal⟩ := hR
+  subst ha hb hp
+  cases hsb : s.blocked with
+  | true => exact ⟨[], snap_blocked s hsb, by simp [snapOk]⟩
   | false =>
-    obtain ⟨d, hd⟩ := snap_misc (step s op)
-    cases op with
-    | create =>
-      refine ⟨true, DEFHDR, [TOKEN], ⟨by simp [step_alive], fun _ => ⟨by simp [step_hdrName, hal], by simp [step_file, hal]⟩⟩, ?_⟩
-      intro ops rest
-      have hs := snap_good (step s .create) [TOKEN] (by simp [step_file, hal])
-      rw [hs]
-      rw [walk_cons]; unfold walkBody; simp [verdictOut, DEFHDR]
-    | req hdr =>
-      refine ⟨false, h, k, ⟨by simp [step_alive, hal], by simp [step_alive, hal]⟩, ?_⟩
-      intro ops rest
-      rw [hd]; rw [walk_cons]; unfold walkBody; simp [verdictOut, hal]
-    | destroy =>
-      refine ⟨false, h, k, ⟨by simp [step_alive], by simp [step_alive]⟩, ?_⟩
-      intro ops rest
-      rw [hd]; rw [walk_cons]; unfold walkBody; simp [verdictOut]
-    | umask m =>
-      refine ⟨false, h, k, ⟨by simp [step_alive, hal], by simp [step_alive, hal]⟩, ?_⟩
-      intro ops rest
-      rw [hd]; rw [walk_cons]; unfold walkBody; simp [verdictOut]
-    | pre m =>
-      refine ⟨false, h, k, ⟨by simp [step_alive, hal], by simp [step_alive, hal]⟩, ?_⟩
-      intro ops rest
-      rw [hd]; rw [walk_cons]; unfold walkBody; simp [verdictOut]
-    | setData ks =>
-      refine ⟨false, h, k, ⟨by simp [step_alive, hal], by simp [step_alive, hal]⟩, ?_⟩
-      intro ops rest
-      rw [hd]; rw [walk_cons]; unfold walkBody; simp [verdictOut]
-    | setHeaderName n =>
-      refine ⟨false, h, k, ⟨by simp [step_alive, hal], by simp [step_alive, hal]⟩, ?_⟩
-      intro ops rest
-      rw [hd]; rw [walk_cons]; unfold walkBody; simp [verdictOut]
-  | true =>
-    obtain ⟨hh, hf⟩ := hR hal
-    subst hh
-    cases op with
-    | create =>
-      refine ⟨true, s.hdrName, k, ⟨by simp [step_alive], fun _ => ⟨by simp [step_hdrName, hal], by simp [step_file, hal, hf]⟩⟩, ?_⟩
-      intro ops rest
-      rw [snap_good (step s .create) k (by simp [step_file, hal, hf])]
-      rw [walk_cons]; unfold walkBody; simp [verdictOut]
-    | req hdr =>
-      refine ⟨true, s.hdrName, k, ⟨by simp [step_alive, hal], fun _ => ⟨by simp [step_hdrName], by simp [step_file, hf]⟩⟩, ?_⟩
-      intro ops rest
-      rw [snap_good (step s (.req hdr)) k (by simp [step_file, hf])]
-      cases hdr with
-      | none => rw [walk_cons]; unfold walkBody; simp [verdictOut, hal, admits]
-      | some p =>
-        obtain ⟨n, tv⟩ := p
-        rw [walk_cons]; unfold walkBody; simp [verdictOut, hal, admits]
-    | destroy =>
-      refine ⟨false, s.hdrName, k, ⟨by simp [step_alive], by simp [step_alive]⟩, ?_⟩
-      intro ops rest
-      rw [snap_none (step s .destroy) (by simp [step_file, hal])]
-      rw [walk_cons]; unfold walkBody; simp [verdictOut]
-    | umask m =>
-      refine ⟨true, s.hdrName, k, ⟨by simp [step_alive, hal], fun _ => ⟨by simp [step_hdrName], by simp [step_file, hf]⟩⟩, ?_⟩
-      intro ops rest
-      rw [snap_good (step s (.umask m)) k (by simp [step_file, hf])]
-      rw [walk_cons]; unfold walkBody; simp [verdictOut]
-    | pre m =>
-      refine ⟨true, s.hdrName, k, ⟨by simp [step_alive, hal], fun _ => ⟨by simp [step_hdrName], by simp [step_file, hf, hal]⟩⟩, ?_⟩
-      intro ops rest
-      rw [snap_good (step s (.pre m)) k (by simp [step_file, hf, hal])]
-      rw [walk_cons]; unfold walkBody; simp [verdictOut]
-    | setData ks =>
-      refine ⟨true, s.hdrName, sortKeys (TOKEN :: ks), ⟨by simp [step_alive, hal], fun _ => ⟨by simp [step_hdrName], by simp [step_file, hal]⟩⟩, ?_⟩
-      intro ops rest
-      rw [snap_good (step s (.setData ks)) (sortKeys (TOKEN :: ks)) (by simp [step_file, hal])]
-      rw [walk_cons]; unfold walkBody; simp [verdictOut]
-    | setHeaderName n =>
-      refine ⟨true, n, k, ⟨by simp [step_alive, hal], fun _ => ⟨by simp [step_hdrName, hal], by simp [step_file, hf]⟩⟩, ?_⟩
-      intro ops rest
-      rw [snap_good (step s (.setHeaderName n)) k (by simp [step_file, hf])]
-      rw [walk_cons]; unfold walkBody; simp [verdictOut]
+    cases hsf : s.file with
+    | none => exact ⟨[], snap_none s hsf, by simp [snapOk]⟩
+    | some f =>
+      cases hsa : s.alive with
+      | false =>
+        obtain ⟨d, hd⟩ := snap_misc s
+        exact ⟨d, hd, by simp [snapOk]⟩
+      | true =>
+        have := (hal hsa).2 (by simp [hsf])
+        exact ⟨_, snap_good s k hsb this, by simp [snapOk]⟩
 
-theorem walk_emit (ops : List Op) (s : St) (a : Bool) (h : Bytes) (k : List Bytes) (hR : Rel s a h k) :
-    C17.walk ops a h k (emit s ops) = true := by
-  induction ops generalizing s a h k with
+theorem walk_step (s : St) (op : Op) (a : Bool) (h : Bytes) (k : List Bytes) (b p : Bool)
+    (hR : Rel s a h k b p) :
+    ∃ a' h' k' b' p', Rel (step s op) a' h' k' b' p' ∧
+      ∀ ops rest, C17.walk (op :: ops) a h k b p (verdictOut s op ++ [snap (step s op)] ++ rest)
+        = C17.walk ops a' h' k' b' p' rest := by
+  have hR' := Rel_step s op a h k b p hR
+  refine ⟨_, _, _, _, _, hR', ?_⟩
+  intro ops rest
+  obtain ⟨d, hd, hok⟩ := Rel_snap _ _ _ _ _ _ hR'
+  obtain ⟨ha, hb, hp, hx, hal⟩ := hR
+  subst ha hb hp
+  rw [hd, walk_cons]
+  unfold walkBody
+  cases op with
+  | req hdr =>
+    cases hsa : s.alive with
+    | false => rw [hsa] at hok; simp [verdictOut, hsa, hok]
+    | true =>
+      have hh := (hal hsa).1
+      rw [hsa] at hok
+      cases hdr with
+      | none => simp [verdictOut, hsa, hok, admits]
+      | some q =>
+        obtain ⟨n, tv⟩ := q
+        simp [verdictOut, hsa, hok, admits, hh]
+  | _ => simp [verdictOut, hok]
+
+theorem walk_emit (ops : List Op) (s : St) (a : Bool) (h : Bytes) (k : List Bytes) (b p : Bool)
+    (hR : Rel s a h k b p) :
+    C17.walk ops a h k b p (emit s ops) = true := by
+  induction ops generalizing s a h k b p with
   | nil => simp [walk_nil, emit]
   | cons op ops ih =>
-    obtain ⟨a', h', k', hR', hw⟩ := walk_step s op a h k hR
+    obtain ⟨a', h', k', b', p', hR', hw⟩ := walk_step s op a h k b p hR
     rw [emit, hw ops (emit (step s op) ops)]
-    exact ih _ _ _ _ hR'
+    exact ih _ _ _ _ _ _ hR'
 
 
 /-! ### 5. the main theorem: the driver's predicate holds on every run of the model -/
 
 /-- `holds` is true on the log of EVERY operation sequence; no well-formedness hypothesis is
     needed (`pre` while alive, `req` before `create`, double `create`, `destroy` without
-    instance, ... are all no-ops of the model that `walk` treats the same way). -/
+    instance, `block` on an occupied name, `unblock` without obstacle, ... are all no-ops of the
+    model that `walk` treats the same way). -/
 theorem holds_run (ops : List Op) : C17.holds ops (LocalAuth.run ops).log = true := by
   rw [run_log]
-  exact walk_emit ops {} false [] [] ⟨rfl, by intro h; cases h⟩
+  exact walk_emit ops {} false [] [] false false
+    ⟨rfl, rfl, rfl, (by intro h; cases h), (by intro h; cases h)⟩
 
 /-- the same from any state related to the accumulators of `walk` (e.g. mid-run) -/
-theorem walk_from (s : St) (ops : List Op) (a : Bool) (h : Bytes) (k : List Bytes) (hR : Rel s a h k) :
-    ∃ out, (ops.foldl step s).log = s.log ++ out ∧ walk ops a h k out = true :=
-  ⟨emit s ops, foldl_log s ops, walk_emit ops s a h k hR⟩
+theorem walk_from (s : St) (ops : List Op) (a : Bool) (h : Bytes) (k : List Bytes) (b p : Bool)
+    (hR : Rel s a h k b p) :
+    ∃ out, (ops.foldl step s).log = s.log ++ out ∧ walk ops a h k b p out = true :=
+  ⟨emit s ops, foldl_log s ops, walk_emit ops s a h k b p hR⟩
 
 /-! ### 1. `file_inv`: the advertised file while an instance is alive -/
 
@@ -217,22 +252,73 @@ theorem LInv_init' : LInv {} := LInv_init
 
 theorem LInv_step' {s : St} (h : LInv s) (op : Op) : LInv (step s op) := LInv_step h op
 
-/-- after every operation of every run (each prefix of a run is a run): if an instance is alive,
-    the file exists with mode 0600, a `token` member, and keys `sortKeys (TOKEN :: ks)` -/
+/-- after every operation of every run (each prefix of a run is a run): a directory and a file are
+    never at the name together, and if an instance is alive, a file at the name has mode 0600, a
+    `token` member, and keys `sortKeys (TOKEN :: ks)` -/
 theorem LInv_run (ops : List Op) : LInv (run ops) := LInv_foldl LInv_init ops
 
-/-- `file_inv`, history form: the keys are `token` plus the keys of the last `setData` since the
-    last effective `create` (`(ghost ops).data`, `[]` if none), whatever umask / pre-existing file -/
-theorem file_inv (ops : List Op) (h : (run ops).alive = true) :
+/-- `file_inv`, history form: while an instance is alive and the file could be written (`present`:
+    the constructor or a later `setData` found the name free, see `gstep`), the keys are `token`
+    plus the keys of the last `setData` since the last effective `create` (`(ghost ops).data`,
+    `[]` if none), whatever umask / pre-existing file -/
+theorem file_inv (ops : List Op) (h : (run ops).alive = true) (hp : (ghost ops).present = true) :
     (run ops).file =
       some { mode := 0o600, keys := sortKeys (TOKEN :: (ghost ops).data), hasToken := true } := by
   have ag := Agree_run ops
-  exact ag.file (ag.alive ▸ h)
+  exact ag.file (ag.alive ▸ h) hp
 
-/-- `file_inv`, explicit form: `pre` leaves no instance alive, then `create`, then any operations
-    except `destroy` (further `create`/`pre` are no-ops) -/
+/-- the hypotheses of `file_inv` are satisfiable, and `present` cannot be dropped: an instance
+    constructed while the name is blocked is alive without a file -/
+example : (run [.create]).alive = true ∧ (ghost [.create]).present = true := by decide
+example : (run [.block, .create]).alive = true ∧ (ghost [.block, .create]).present = false ∧
+    (run [.block, .create]).file = none := by decide
+
+/-- the same without reference to the history of the obstacle: whenever an instance is alive and
+    there is a file at all, it is the advertised one with the CURRENT data (also when it was
+    written only after a failed open at construction) -/
+theorem file_inv_of_isSome (ops : List Op) (h : (run ops).alive = true) (hf : (run ops).file.isSome = true) :
+    (run ops).file =
+      some { mode := 0o600, keys := sortKeys (TOKEN :: (ghost ops).data), hasToken := true } := by
+  have ag := Agree_run ops
+  exact ag.file (ag.alive ▸ h) (ag.present ▸ hf)
+
+/-- while a directory occupies the name there is no file and the snapshot says so -/
+theorem blocked_no_file (ops : List Op) (h : (run ops).blocked = true) :
+    (run ops).file = none ∧ snap (run ops) = Obs.misc 10 [] :=
+  ⟨(LInv_run ops).1 h, snap_blocked _ h⟩
+
+/-- an `updateFile()` that can open the file publishes it: the constructor ... -/
+theorem create_publishes (ops : List Op) (ha : (run ops).alive = false) (hb : (run ops).blocked = false) :
+    (run (ops ++ [Op.create])).file = some (goodFile [TOKEN]) := by
+  rw [run_snoc, step_file]; simp [ha, hb]
+
+/-- ... and every `setData` on a live instance (also the first one after the obstacle went away) -/
+theorem setData_publishes (ops : List Op) (ks : List Bytes) (ha : (run ops).alive = true)
+    (hb : (run ops).blocked = false) :
+    (run (ops ++ [Op.setData ks])).file = some (goodFile (sortKeys (TOKEN :: ks))) := by
+  rw [run_snoc, step_file]; simp [ha, hb]
+
+/-- while the name is blocked `updateFile()` changes nothing on disk -/
+theorem blocked_update_noop (s : St) (hb : s.blocked = true) (ks : List Bytes) :
+    (step s .create).file = s.file ∧ (step s (.setData ks)).file = s.file := by
+  simp [step_file, hb]
+
+/-- the tail of a run after a successful `updateFile()` of a live instance, no `destroy` since -/
+theorem ghost_published_tail (g : Ghost) (ha : g.alive = true) (hp : g.present = true) (hx : g.blocked = true → g.present = false)
+    (post : List Op) (hpost : ∀ op ∈ post, op ≠ Op.destroy) :
+    post.foldl gstep g =
+      { alive := true, hdr := lastHdr g.hdr post, data := lastData g.data post, removed := g.removed,
+        blocked := false, present := true } := by
+  have hb : g.blocked = false := by
+    cases hgb : g.blocked with
+    | false => rfl
+    | true => rw [hx hgb] at hp; cases hp
+  exact gstep_alive_tail g ha hp hb post hpost
+
+/-- `file_inv`, explicit form: `pre` leaves no instance alive and the name free, then `create`,
+    then any operations except `destroy` (further `create`/`pre`/`block` are no-ops) -/
 theorem file_inv_since_create (pre post : List Op) (hpre : (run pre).alive = false)
-    (hpost : ∀ op ∈ post, op ≠ Op.destroy) :
+    (hb : (run pre).blocked = false) (hpost : ∀ op ∈ post, op ≠ Op.destroy) :
     (run (pre ++ Op.create :: post)).alive = true ∧
     (run (pre ++ Op.create :: post)).file =
       some { mode := 0o600, keys := sortKeys (TOKEN :: lastData [] post), hasToken := true } ∧
@@ -240,24 +326,65 @@ theorem file_inv_since_create (pre post : List Op) (hpre : (run pre).alive = fal
   have ag := Agree_run (pre ++ Op.create :: post)
   have agp := Agree_run pre
   have hg : ghost (pre ++ Op.create :: post) =
-      { alive := true, hdr := lastHdr DEFHDR post, data := lastData [] post, removed := false } := by
+      { alive := true, hdr := lastHdr DEFHDR post, data := lastData [] post, removed := false,
+        blocked := false, present := true } := by
     have h1 : (ghost pre).alive = false := agp.alive ▸ hpre
-    have h2 : gstep (ghost pre) Op.create = { alive := true, hdr := DEFHDR, data := [], removed := false } := by
-      simp [gstep, h1]
+    have h1b : (ghost pre).blocked = false := agp.blocked ▸ hb
+    have h2 : gstep (ghost pre) Op.create =
+        { alive := true, hdr := DEFHDR, data := [], removed := false, blocked := false, present := true } := by
+      simp [gstep, h1, h1b]
     simp only [ghost, List.foldl_append, List.foldl_cons]
-    have := gstep_alive_tail (gstep (List.foldl gstep {} pre) Op.create) (by rw [show List.foldl gstep {} pre = ghost pre from rfl, h2]) post hpost
-    rw [this, show List.foldl gstep {} pre = ghost pre from rfl, h2]
+    rw [show List.foldl gstep {} pre = ghost pre from rfl, h2]
+    exact gstep_alive_tail _ rfl rfl rfl post hpost
   have ha : (ghost (pre ++ Op.create :: post)).alive = true := by rw [hg]
+  have hp : (ghost (pre ++ Op.create :: post)).present = true := by rw [hg]
   refine ⟨ag.alive.trans ha, ?_, ?_⟩
-  · have := ag.file ha; rw [hg] at this; exact this
+  · have := ag.file ha hp; rw [hg] at this; exact this
   · have := ag.hdr ha; rw [hg] at this; exact this
+
+/-- `file_inv` after a failed open at construction: an instance is alive (however it got there, e.g.
+    constructed while the name was blocked), the name is free, `setData ks`, then any operations
+    except `destroy`: the file holds the token and the CURRENT data -/
+theorem file_inv_since_update (pre : List Op) (ks : List Bytes) (post : List Op)
+    (hpre : (run pre).alive = true) (hb : (run pre).blocked = false)
+    (hpost : ∀ op ∈ post, op ≠ Op.destroy) :
+    (run (pre ++ Op.setData ks :: post)).alive = true ∧
+    (run (pre ++ Op.setData ks :: post)).file =
+      some { mode := 0o600, keys := sortKeys (TOKEN :: lastData ks post), hasToken := true } ∧
+    (run (pre ++ Op.setData ks :: post)).hdrName = lastHdr (run pre).hdrName post := by
+  have ag := Agree_run (pre ++ Op.setData ks :: post)
+  have agp := Agree_run pre
+  have h1 : (ghost pre).alive = true := agp.alive ▸ hpre
+  have h1b : (ghost pre).blocked = false := agp.blocked ▸ hb
+  have hg : ghost (pre ++ Op.setData ks :: post) =
+      { alive := true, hdr := lastHdr (ghost pre).hdr post, data := lastData ks post,
+        removed := (ghost pre).removed, blocked := false, present := true } := by
+    have h2 : gstep (ghost pre) (Op.setData ks) =
+        { alive := true, hdr := (ghost pre).hdr, data := ks, removed := (ghost pre).removed,
+          blocked := false, present := true } := by
+      generalize ghost pre = g at h1 h1b
+      obtain ⟨ga, gh, gd, gr, gb, gp⟩ := g
+      simp only at h1 h1b; subst h1 h1b
+      simp [gstep]
+    simp only [ghost, List.foldl_append, List.foldl_cons]
+    rw [show List.foldl gstep {} pre = ghost pre from rfl, h2]
+    exact gstep_alive_tail _ rfl rfl rfl post hpost
+  have ha : (ghost (pre ++ Op.setData ks :: post)).alive = true := by rw [hg]
+  have hp : (ghost (pre ++ Op.setData ks :: post)).present = true := by rw [hg]
+  refine ⟨ag.alive.trans ha, ?_, ?_⟩
+  · have := ag.file ha hp; rw [hg] at this; exact this
+  · have := ag.hdr ha; rw [hg] at this; rw [this, agp.hdr h1]
+
+/-- its hypotheses hold after a construction whose open failed, once the obstacle is gone -/
+example : (run [.block, .create, .unblock]).alive = true ∧ (run [.block, .create, .unblock]).blocked = false ∧
+    (run [.block, .create, .unblock]).file = none := by decide
 
 /-- the key list of the file is strictly increasing (so duplicate-free), contains `token`, and
     besides `token` exactly the application's keys -/
-theorem file_keys (ops : List Op) (h : (run ops).alive = true) :
+theorem file_keys (ops : List Op) (h : (run ops).alive = true) (hp : (ghost ops).present = true) :
     ∃ f, (run ops).file = some f ∧ f.mode = 0o600 ∧ f.hasToken = true ∧
       Sorted f.keys ∧ f.keys.Nodup ∧ ∀ k, k ∈ f.keys ↔ k = TOKEN ∨ k ∈ (ghost ops).data := by
-  refine ⟨_, file_inv ops h, rfl, rfl, sortKeys_sorted _, sortKeys_nodup _, ?_⟩
+  refine ⟨_, file_inv ops h hp, rfl, rfl, sortKeys_sorted _, sortKeys_nodup _, ?_⟩
   intro k; simp [mem_sortKeys]
 
 /-- every operation appends (a verdict, for a request on a live instance, and) one snapshot -/
@@ -265,22 +392,28 @@ theorem log_snoc (ops : List Op) (op : Op) :
     (run (ops ++ [op])).log = (run ops).log ++ verdictOut (run ops) op ++ [snap (run (ops ++ [op]))] := by
   rw [run_snoc, step_log]
 
-/-- snapshot form of `file_inv`: the snapshot of a state with a live instance -/
-theorem snap_alive (ops : List Op) (h : (run ops).alive = true) :
+/-- snapshot form of `file_inv`: the snapshot of a state with a live instance and its file -/
+theorem snap_alive (ops : List Op) (h : (run ops).alive = true) (hp : (ghost ops).present = true) :
     snap (run ops) =
-      Obs.misc 10 (1 :: 6 :: 0 :: 0 :: 1 :: joinWith [44] (sortKeys (TOKEN :: (ghost ops).data))) :=
-  snap_good _ _ (file_inv ops h)
+      Obs.misc 10 (1 :: 6 :: 0 :: 0 :: 1 :: joinWith [44] (sortKeys (TOKEN :: (ghost ops).data))) := by
+  have ag := Agree_run ops
+  have hb : (run ops).blocked = false := by
+    cases hgb : (run ops).blocked with
+    | false => rfl
+    | true => have := ag.excl (ag.blocked ▸ hgb); rw [this] at hp; cases hp
+  exact snap_good _ _ hb (file_inv ops h hp)
 
-/-- every `.misc 10 d` logged while alive has the shape `1 :: 6 :: 0 :: 0 :: 1 :: keys`: the log
-    of a run split at an arbitrary operation `op` after which an instance is alive -/
+/-- every `.misc 10 d` logged while alive with the file published has the shape
+    `1 :: 6 :: 0 :: 0 :: 1 :: keys`: the log of a run split at an arbitrary operation `op` after
+    which an instance is alive and its file is there -/
 theorem snapshot_shape (pre : List Op) (op : Op) (post : List Op)
-    (h : (run (pre ++ [op])).alive = true) :
+    (h : (run (pre ++ [op])).alive = true) (hp : (ghost (pre ++ [op])).present = true) :
     (run (pre ++ op :: post)).log =
       (run pre).log ++ verdictOut (run pre) op ++
       [Obs.misc 10 (1 :: 6 :: 0 :: 0 :: 1 :: joinWith [44] (sortKeys (TOKEN :: (ghost (pre ++ [op])).data)))] ++
       emit (run (pre ++ [op])) post := by
   have : pre ++ op :: post = (pre ++ [op]) ++ post := by simp
-  rw [this, run_append, foldl_log, log_snoc, snap_alive _ h]
+  rw [this, run_append, foldl_log, log_snoc, snap_alive _ h hp]
 
 /-! ### 2. `admit_iff`: only the exact token under the configured header is admitted -/
 
@@ -343,7 +476,7 @@ theorem req_logged (ops : List Op) (h : (run ops).alive = true) (hdr : Option (B
       (run ops).log ++ [Obs.misc 11 [if admits (run ops) hdr then 1 else 0], snap (run ops)] := by
   rw [log_snoc]
   have : snap (run (ops ++ [Op.req hdr])) = snap (run ops) := by
-    simp [snap, run_snoc, step_file]
+    simp [snap, run_snoc, step_file, step_blocked]
   simp [verdictOut, h, this]
 
 /-- a request changes nothing but the log -/
@@ -356,17 +489,26 @@ theorem req_pure (s : St) (hdr : Option (Bytes × TokVal)) :
 
 theorem destroy_dead (s : St) : (step s .destroy).alive = false := by simp [step_alive]
 
+/-- the destructor of a live instance removes the file from EVERY state: nothing about how or when
+    the file came into being (at construction, or by a later update after the open at construction
+    had failed) is consulted -/
 theorem destroy_removes (s : St) (h : s.alive = true) : (step s .destroy).file = none := by
   simp [step_file, h]
 
-/-- history form: once an instance was destroyed and neither `create` nor `pre` took effect
-    since, there is no file and no instance -/
+/-- ... and leaves a directory at the name where it is (`QFile::remove()` fails on it) -/
+theorem destroy_keeps_obstacle (s : St) : (step s .destroy).blocked = s.blocked := by
+  simp [step_blocked]
+
+/-- history form: once an instance was destroyed and neither `create` nor an effective `pre`
+    happened since, there is no file and no instance -/
 theorem removed (ops : List Op) (h : (ghost ops).removed = true) :
     (run ops).file = none ∧ (run ops).alive = false := by
   have ag := Agree_run ops
   exact ⟨(ag.removed h).1, ag.alive.trans (ag.removed h).2⟩
 
-/-- explicit form: destroy a live instance, then anything but `create` / `pre` -/
+/-- explicit form: destroy a live instance, then anything but `create` / `pre` (in particular
+    `block` / `unblock`).  `pre` is ANY history that leaves an instance alive: also one where the
+    open at construction failed and a later update created the file. -/
 theorem removed_after_destroy (pre post : List Op) (hpre : (run pre).alive = true)
     (hpost : ∀ op ∈ post, op ≠ Op.create ∧ ∀ m, op ≠ Op.pre m) :
     (run (pre ++ Op.destroy :: post)).file = none ∧
@@ -379,8 +521,68 @@ theorem removed_after_destroy (pre post : List Op) (hpre : (run pre).alive = tru
             (gstep (List.foldl gstep {} pre) Op.destroy).removed = true := by
     rw [show List.foldl gstep {} pre = ghost pre from rfl]
     simp [gstep, h1]
-  rw [gstep_dead_tail _ h2.1 post hpost]
-  exact h2.2
+  exact (gstep_dead_tail _ h2.1 h2.2 post hpost).2
+
+/-- (b), stated for the fault path: the instance is constructed while the name is blocked (the
+    open at construction fails), ANY operations without `destroy` follow (the obstacle may go
+    away, updates may publish the file), then the instance is destroyed: the file is gone, and
+    stays gone until the next `create` / `pre` -/
+theorem removed_after_destroy_blocked (pre mid post : List Op)
+    (hpre : (run pre).alive = false) (hb : (run pre).blocked = true)
+    (hmid : ∀ op ∈ mid, op ≠ Op.destroy)
+    (hpost : ∀ op ∈ post, op ≠ Op.create ∧ ∀ m, op ≠ Op.pre m) :
+    -- the constructor took effect (fresh token, instance alive) but could not publish anything
+    (run (pre ++ [Op.create])).inst = (run pre).inst + 1 ∧
+    (run (pre ++ [Op.create])).alive = true ∧
+    (run (pre ++ [Op.create])).file = none ∧
+    -- whatever happened in between, the destructor removes the file
+    (run (pre ++ Op.create :: mid ++ Op.destroy :: post)).file = none ∧
+    (run (pre ++ Op.create :: mid ++ Op.destroy :: post)).alive = false := by
+  have hal : (run (pre ++ Op.create :: mid)).alive = true := by
+    have hg : ∀ (l : List Op) (s : St), s.alive = true → (∀ op ∈ l, op ≠ Op.destroy) →
+        (l.foldl step s).alive = true := by
+      intro l
+      induction l with
+      | nil => intro s h _; exact h
+      | cons o l ih =>
+        intro s h hl
+        refine ih _ ?_ (fun o' ho' => hl o' (List.mem_cons_of_mem _ ho'))
+        have : o ≠ Op.destroy := hl o (by simp)
+        rw [step_alive]; cases o <;> simp_all
+    have : pre ++ Op.create :: mid = (pre ++ [Op.create]) ++ mid := by simp
+    rw [this, run_append]
+    exact hg mid _ (by rw [run_snoc, step_alive]) hmid
+  have := removed_after_destroy (pre ++ Op.create :: mid) post hal hpost
+  refine ⟨?_, ?_, ?_, by simpa [List.append_assoc] using this⟩
+  · rw [run_snoc, step_inst]; simp [hpre]
+  · rw [run_snoc, step_alive]
+  · rw [run_snoc, step_file]; simp [hb, (LInv_run pre).1 hb]
+
+/-- the scenario of the regression this guards against, for every prior history and every data:
+    blocked at construction (nothing published), the obstacle goes away, `setData ks` publishes the
+    file with the live token, `destroy` removes it -/
+theorem published_then_removed (pre : List Op) (ks : List Bytes)
+    (hpre : (run pre).alive = false) (hb : (run pre).blocked = true) :
+    (run (pre ++ [Op.create])).file = none ∧
+    (run (pre ++ [Op.create, Op.unblock])).file = none ∧
+    (run (pre ++ [Op.create, Op.unblock, Op.setData ks])).file = some (goodFile (sortKeys (TOKEN :: ks))) ∧
+    (run (pre ++ [Op.create, Op.unblock, Op.setData ks, Op.destroy])).file = none := by
+  have hf : (run pre).file = none := (LInv_run pre).1 hb
+  have e1 : run (pre ++ [Op.create]) = step (run pre) .create := run_snoc _ _
+  have e2 : run (pre ++ [Op.create, Op.unblock]) = step (step (run pre) .create) .unblock := by
+    have : pre ++ [Op.create, Op.unblock] = (pre ++ [Op.create]) ++ [Op.unblock] := by simp
+    rw [this, run_snoc, e1]
+  have e3 : run (pre ++ [Op.create, Op.unblock, Op.setData ks]) =
+      step (step (step (run pre) .create) .unblock) (.setData ks) := by
+    have : pre ++ [Op.create, Op.unblock, Op.setData ks] = (pre ++ [Op.create, Op.unblock]) ++ [Op.setData ks] := by simp
+    rw [this, run_snoc, e2]
+  have e4 : run (pre ++ [Op.create, Op.unblock, Op.setData ks, Op.destroy]) =
+      step (step (step (step (run pre) .create) .unblock) (.setData ks)) .destroy := by
+    have : pre ++ [Op.create, Op.unblock, Op.setData ks, Op.destroy] =
+        (pre ++ [Op.create, Op.unblock, Op.setData ks]) ++ [Op.destroy] := by simp
+    rw [this, run_snoc, e3]
+  rw [e1, e2, e3, e4]
+  simp [step_file, step_alive, step_blocked, hpre, hb, hf]
 
 /-! ### 4. `inst_fresh`: every effective `create` draws a new token identity -/
 
@@ -462,7 +664,59 @@ example : C17.holds [.req none, .destroy, .create, .pre 0o777, .create, .req non
     (run [.req none, .destroy, .create, .pre 0o777, .create, .req none, .destroy, .destroy]).log = true := by
   decide
 
-example : (ghost demoOps) = { alive := false, hdr := HX_MY, data := [PORT], removed := true } := by
+/-! the fault path: `LocalFile::open()` fails at construction -/
+
+/-- block, create (nothing published), unblock, setData [port] (published), destroy (removed) -/
+def faultOps : List Op := [.block, .create, .unblock, .setData [PORT], .destroy]
+
+/-- block, create, setData (still nothing), unblock, setData [port], req, destroy, block, create -/
+def faultOps2 : List Op :=
+  [.block, .create, .setData [], .req (some (DEFHDR, .exact)), .unblock, .setData [PORT],
+   .req (some (DEFHDR, .exact)), .destroy, .block, .create, .destroy, .unblock]
+
+example : (run faultOps).log =
+    [ Obs.misc 10 [],     -- block: a directory, not the advertised file
+      Obs.misc 10 [],     -- create: open fails, nothing written
+      Obs.misc 10 [],     -- unblock: nothing there yet
+      liveSnap,           -- setData [port]: token + data published, 0600
+      Obs.misc 10 [] ] := by decide   -- destroy: removed although the open at construction failed
+
+example : C17.holds faultOps (run faultOps).log = true := by decide
+example : C17.holds faultOps2 (run faultOps2).log = true := by decide
+
+/-- the hypotheses of `removed_after_destroy_blocked` / `published_then_removed` are satisfiable -/
+example : (run [Op.block]).alive = false ∧ (run [Op.block]).blocked = true := by decide
+
+/-- the predicate rejects a log in which the file survives `destroy` on the fault path (the
+    destructor removing the file only when the open at construction succeeded) -/
+example : C17.holds faultOps ((run faultOps).log.set 4 liveSnap) = false := by decide
+
+/-- ... one in which the first successful update after the obstacle went away does not publish -/
+example : C17.holds faultOps ((run faultOps).log.set 3 (Obs.misc 10 [])) = false := by decide
+
+/-- ... one in which the data of the blocked `setData` were lost (only the token written) -/
+example : C17.holds [.block, .create, .setData [PORT], .unblock, .setData [PORT], .destroy]
+    [Obs.misc 10 [], Obs.misc 10 [], Obs.misc 10 [], Obs.misc 10 [],
+     Obs.misc 10 ([1, 6, 0, 0, 1] ++ lit ['t','o','k','e','n']), Obs.misc 10 []] = false := by decide
+
+/-- ... one that reports the directory as the advertised file -/
+example : C17.holds faultOps ((run faultOps).log.set 1 (Obs.misc 10 ([1, 7, 5, 5, 0]))) = false := by decide
+
+/-- ... and one in which a request with the right token is refused while the name is blocked -/
+example : C17.holds [.block, .create, .req (some (DEFHDR, .exact))]
+    [Obs.misc 10 [], Obs.misc 10 [], Obs.misc 11 [0], Obs.misc 10 []] = false := by decide
+example : C17.holds [.block, .create, .req (some (DEFHDR, .exact))]
+    [Obs.misc 10 [], Obs.misc 10 [], Obs.misc 11 [1], Obs.misc 10 []] = true := by decide
+
+/-- `block` on an occupied name and `unblock` without obstacle are no-ops -/
+example : (run [.create, .block]).blocked = false ∧ (run [.pre 0o644, .block]).blocked = false ∧
+    (run [.unblock]).blocked = false ∧ (run [.block, .destroy]).blocked = true ∧
+    (run [.block, .create, .destroy]).blocked = true := by decide
+
+example : (ghost faultOps) = { alive := false, hdr := DEFHDR, data := [PORT], removed := true, blocked := false, present := false } := by
+  decide
+
+example : (ghost demoOps) = { alive := false, hdr := HX_MY, data := [PORT], removed := true, blocked := false, present := false } := by
   decide
 
 example : (run (demoOps ++ [.create])).inst = 2 := by decide
